@@ -6,6 +6,19 @@ import numpy as np
 from . import oracle as O
 
 
+# register sizes and list lengths around natural implementation thresholds (machine words, byte counters, block sizes)
+BIG_NS = [31, 32, 33, 63, 64, 65, 66, 70, 127, 128, 129, 130]
+BIG_LS = [63, 64, 65, 255, 256, 257, 300, 1000]
+
+
+def sparse_string(rng, N, w=None):
+    """a string of weight w (default small) at random positions: exercises single high / low qubits of a wide register."""
+    w = int(rng.integers(1, 4)) if w is None else w
+    l = np.zeros(N, dtype=np.int64)
+    l[rng.choice(N, size=min(w, N), replace=False)] = rng.integers(1, 4, min(w, N))
+    return O.from_letters(l)
+
+
 def rng_for(rec, extra=0):
     from .monitor import digest64
     return np.random.default_rng([rec.seed, digest64(rec.shard) & 0xFFFFFFFF, extra])
